@@ -4,6 +4,8 @@ import (
 	"fmt"
 
 	apiv1 "k8s.io/api/core/v1"
+	metav1 "k8s.io/apimachinery/pkg/apis/meta/v1"
+	"k8s.io/apimachinery/pkg/labels"
 	"sigs.k8s.io/controller-runtime/pkg/client"
 	gatewayv1 "sigs.k8s.io/gateway-api/apis/v1"
 
@@ -480,6 +482,9 @@ func splitNN(s string) (string, string) {
 // Generate mixes the shared scen generator (PBackendTLS off: BackendTLSPolicy validity is C16's subject) with
 // the routing-heavy profile.
 func Generate(r *rng.R) (*scen.Scenario, string) {
+	if r.Chance(8, 100) {
+		return GenSelectors(r), "selector"
+	}
 	if r.Chance(25, 100) {
 		return GenFragment(r), "fragment"
 	}
@@ -583,6 +588,15 @@ func AddNoise(r *rng.R, base []client.Object) ([]client.Object, []string) {
 				if l.AllowedRoutes == nil || l.AllowedRoutes.Namespaces == nil || l.AllowedRoutes.Namespaces.From == nil ||
 					*l.AllowedRoutes.Namespaces.From == gatewayv1.NamespacesFromAll {
 					allowedSomewhere = true
+					continue
+				}
+				// a Selector listener admits the new namespace when its label selector matches the namespace's labels —
+				// the EMPTY selector {} matches every namespace
+				if *l.AllowedRoutes.Namespaces.From == gatewayv1.NamespacesFromSelector && l.AllowedRoutes.Namespaces.Selector != nil {
+					sel, err := metav1.LabelSelectorAsSelector(l.AllowedRoutes.Namespaces.Selector)
+					if err != nil || sel.Matches(labels.Set{"kubernetes.io/metadata.name": "x-ns"}) {
+						allowedSomewhere = true
+					}
 				}
 			}
 			if allowedSomewhere {
